@@ -18,6 +18,8 @@ ASSUMPTIONS = TRUSTED_BASE + [
     "proved (slices of the real _propagate_from ASTs, contracts/engines_loops2.py): the CP2K consumption loop (two queues: positions and velocities of frame k are paired, one file frame per phase point, queues stay aligned between polls) "
     "and its failure statement; the GROMACS frame loop (own x / v / box, velocity direction as announced by vel_rev -- refuted on the original tree: fix fa7c73d); the ASE and TurtleMD in-process loops (the arrays the order is computed from are the ones written as frame k; TurtleMD: the xyz buffers are refreshed from the current MD state before the write). "
     "Assumed there: the reader hands out frame k as its k-th item (C13), EngineBase.calculate_order applies vel_rev (E2 clause above), system.vel_rev == reverse on entry (postcondition of EngineBase.propagate)",
+    "proved: EngineBase.dump_config / dump_frame / dump_phasepoint (file names as interned values, _extract_frame / _copyfile recorded): exactly one extraction of (file, idx) into <exe_dir>/<deffnm>.<ext>, the phase point is re-pointed to (that file, 0) and nothing else in the heap changes "
+    "-- this is the contract C09 assumes of engine.dump_phasepoint",
     "in every frame loop: no frame is offered to add_to_path after it reported `stop` (the loop leaves), and the success flag the loop ends with is the outcome of the last frame -- together with the proved add_to_path rule this is "
     "'stops at the first frame outside the interfaces or at the length limit and reports success only in the former case' for the Python drivers",
     "the RESULT contract that the move logic (C09/C11) ASSUMES of engine.propagate -- all frames but the last inside [left, right], never longer than maxlen, success iff the last frame is outside and the path is not full -- is PROVED for the real GROMACS frame loop "
@@ -36,6 +38,10 @@ def jobs(tier):
         ("e1", {"name": "EngineBase.add_to_path", "registry": "contracts.tis_moves", "key": "EngineBase.add_to_path", "clause": "stop / success rule", "cost": 2, "parallel": 2}),
         ("e1", {"name": "EngineBase.propagate", "registry": "contracts.engine_base", "key": "EngineBase.propagate",
                 "clause": "common set-up: dump the start point, reverse velocities iff the direction changes, start the engine from that file / frame 0 / requested direction, exactly once, return its result", "cost": 1, "parallel": 2}),
+        ("e1", {"name": "EngineBase.dump_config", "registry": "contracts.engine_base", "key": "EngineBase.dump_config#contract",
+                "clause": "dump_config: a trajectory frame is extracted exactly once (file, idx -> output in the engine's directory), a single-file configuration is copied iff it is a different file; returns the output; heap untouched", "cost": 1, "parallel": 2}),
+        ("e1", {"name": "EngineBase.dump_phasepoint", "registry": "contracts.engine_base", "key": "EngineBase.dump_phasepoint",
+                "clause": "dump_phasepoint extracts the frame the phase point references and re-points exactly this phase point to frame 0 of the dumped file", "cost": 1, "parallel": 1}),
         ("e1", {"name": "cp2k_consume_loop", "registry": "contracts.engines_loops2", "key": "CP2KEngine._propagate_from#consume", "clause": "CP2K: frame k is built from the k-th positions AND the k-th velocities, written as file frame k, stored as (file, k); queues stay aligned", "cost": 1, "parallel": 2}),
         ("e1", {"name": "cp2k_failure", "registry": "contracts.engines_loops2", "key": "CP2KEngine._propagate_from#failure", "clause": "CP2K failure raises", "cost": 1, "parallel": 1}),
         ("e1", {"name": "gromacs_frame_loop", "registry": "contracts.engines_loops2", "key": "GromacsEngine._propagate_from#frames", "clause": "GROMACS: frame k uses its own x, v, box with the velocity direction of its vel_rev flag; stored as (trr, k)", "cost": 1, "parallel": 2}),
